@@ -29,7 +29,7 @@ RULE = ("Hypothesis draws a non-negative count matrix (n in 1..7 quick / 1..12 t
         "of their own (sparse_arrays: same numbers as dense input, array flavour preserved).")
 ASSUMPTIONS = [
     "domain = ndarray, the eight scipy.sparse *_matrix classes and their *_array counterparts (clause sparse_arrays)",
-    "count dtypes int64, int32, int16, float64 (float32 counts carry float32 precision through both the dense and the sparse "
+    "count dtypes int64, int32, int16, uint16 (well-sampled: largest entry 40000..65535), float64 (float32 counts carry float32 precision through both the dense and the sparse "
     "path and are not generated)",
     "stationarity of normalize() and everything about mle() is asserted only on strongly connected (C + prior)",
     "when a prior is added to a sparse input any dense numpy result (ndarray, including the np.matrix scipy returns for "
@@ -79,10 +79,12 @@ def builder_case(draw, n_max=7, builder_names=BUILDERS, container_names=None, eq
     elif mat["dtype"] in ("int32", "int64") and draw(st.integers(0, 7)) == 0 and 0 < max(max(r) for r in mat["C"]) <= 3000:
         # ... and well-sampled 16-bit counts: every entry fits (the largest lies between 20000 and 32767), the sum of two
         # of them does not. Builders are invariant under scaling the counts, the reference works in float64.
-        k = 32767 // max(max(r) for r in mat["C"])
-        k = draw(st.integers(max(1, (20000 + max(max(r) for r in mat["C"]) - 1) // max(max(r) for r in mat["C"])), k))
+        unsigned = draw(st.booleans())          # ... or unsigned 16 bits: the largest entry lies between 40000 and 65535
+        top, low = (65535, 40000) if unsigned else (32767, 20000)
+        k = top // max(max(r) for r in mat["C"])
+        k = draw(st.integers(max(1, (low + max(max(r) for r in mat["C"]) - 1) // max(max(r) for r in mat["C"])), k))
         mat["C"] = [[v * k for v in row] for row in mat["C"]]
-        mat["dtype"] = "int16"
+        mat["dtype"] = "uint16" if unsigned else "int16"
         mat["flavour"] = mat["flavour"] + "_x16bit"
         prior_kinds = ("none",)
     if mat["flavour"] == "real" and draw(st.integers(0, 3)) == 0:
